@@ -300,7 +300,7 @@ class Unit:
         for n in names:
             self.emit("#[verifier::external_type_specification]\n#[verifier::external_body]\npub struct VxEx_%s_%s(crate::%s::%s);" % (modname, n, modname, n), "glue", "E13")
 
-    def take_ext(self, sf, paths, modname, uses="", opaque=True):
+    def take_ext(self, sf, paths, modname, uses="", opaque=True, transparent=False):
         """Copy the listed type definitions verbatim (derives kept) into a plain-Rust module `modname` placed
         outside the verus! block, re-export them into the current verus module and declare them as opaque
         external types. Only cfg(windows) variants/items are dropped (E2)."""
@@ -346,8 +346,10 @@ class Unit:
         self.pieces = saved
         self.emit("pub use crate::%s::{%s};" % (modname, ", ".join(names)), "glue", "E1")
         for n in names:
-            # opaque: Verus never looks inside; transparent (opaque=False): fields visible to Verus (all fields pub, supported types)
-            self.emit("#[verifier::external_type_specification]\n%spub struct VxEx_%s_%s(crate::%s::%s);" % ("#[verifier::external_body]\n" if opaque else "", modname, n, modname, n), "glue", "E1")
+            # opaque: Verus never looks inside; transparent: fields visible to Verus (all fields pub, supported types);
+            # neither: the caller declares the external type specification itself
+            if opaque or transparent:
+                self.emit("#[verifier::external_type_specification]\n%spub struct VxEx_%s_%s(crate::%s::%s);" % ("#[verifier::external_body]\n" if not transparent else "", modname, n, modname, n), "glue", "E1")
 
     # ---- take: struct / enum / const ---------------------------------------
     def take(self, sf, path, kind=None, keep_derive=(), extra_attrs="", make_pub=True, structural=False):
